@@ -262,6 +262,22 @@ def conecyl_field_predicate(seed=7, n=6):
             uvw = np.array([float(np.asarray(o)[0]) for o in out[:3]])
             got = (g @ d['c'])[:3]
             sc = max(np.abs(uvw).max(), np.abs(got).max(), 1e-300)
+            if ndisp == 3 and len(out) >= 5:
+                # classical models: the reported rotations are minus the slopes of the reported w (phix = -w,x ; phit = -w,theta / r, r = r2 + x sin(alpha))
+                def w_at(x_, t_):
+                    return float(np.asarray(ns['fuvw'](d['c'], d['m1'], d['m2'], d['n2'], d['alpharad'], d['r2'], d['L'], d['tLA'],
+                                                       np.array([x_]), np.array([t_]), 1)[2])[0])
+                x0, t0 = min(max(d['x'], 0.05 * d['L']), 0.95 * d['L']), d['t']
+                o2 = ns['fuvw'](d['c'], d['m1'], d['m2'], d['n2'], d['alpharad'], d['r2'], d['L'], d['tLA'], np.array([x0]), np.array([t0]), 1)
+                hx, ht = 1e-3 * d['L'], 1e-3
+                wx = (-w_at(x0 + 2 * hx, t0) + 8 * w_at(x0 + hx, t0) - 8 * w_at(x0 - hx, t0) + w_at(x0 - 2 * hx, t0)) / (12 * hx)
+                wt = (-w_at(x0, t0 + 2 * ht) + 8 * w_at(x0, t0 + ht) - 8 * w_at(x0, t0 - ht) + w_at(x0, t0 - 2 * ht)) / (12 * ht)
+                r_ = d['r2'] + x0 * d['sina']
+                for nm_, got_, ref_ in (('phix', float(np.asarray(o2[3])[0]), -wx), ('phit', float(np.asarray(o2[4])[0]), -wt / r_)):
+                    if abs(got_ - ref_) > 1e-6 * max(abs(ref_), abs(wx), abs(wt) / r_, 1e-300):
+                        return ('%s (source as written): the reported rotation %s at (x=%.6g, theta=%.6g) is %.9e, minus the slope of the reported w '
+                                '(finite difference of the same source, local radius %.6g) is %.9e' % (rel, nm_, x0, t0, got_, r_, ref_),
+                                dict(source=rel, m1=d['m1'], m2=d['m2'], n2=d['n2'], x=x0, t=t0, alpharad=d['alpharad'], r2=d['r2'], L=d['L'], seed=seed))
             if np.abs(got - uvw).max() > 1e-10 * sc:
                 k = int(np.abs(got - uvw).argmax())
                 return ('%s (source as written): the shape-function row fg at (x=%.6g, theta=%.6g) applied to the amplitudes gives %s = %.9e, '
